@@ -345,8 +345,9 @@ func c05Reuse(c *core.Ctx, k *core.Case) {
 
 func init() {
 	p := &core.Property{
-		ID:   "C05",
-		Rule: "grid: all 256×256 (first octet, message type) pairs with the type at offset 2 and at offset 3, each as a bare header, as header + minimal valid body when the type is assigned, and with 4–16 random bodies, through PlainNasDecode, GmmMessageDecode and GsmMessageDecode; nil, empty and every too-short input; encode for all 256 type values of both families with and without body. Non-trivial = every grid pair (each decides a routing outcome); distinct by (first octet, type, offset).",
+		ID:         "C05",
+		Interleave: []string{"one"},
+		Rule:       "grid: all 256×256 (first octet, message type) pairs with the type at offset 2 and at offset 3, each as a bare header, as header + minimal valid body when the type is assigned, and with 4–16 random bodies, through PlainNasDecode, GmmMessageDecode and GsmMessageDecode; nil, empty and every too-short input; encode for all 256 type values of both families with and without body. Non-trivial = every grid pair (each decides a routing outcome); distinct by (first octet, type, offset).",
 		Assumptions: []string{
 			"assigned types come from the frozen table spec/messages.json",
 			"a header naming a type whose body pointer is nil is a caller error outside the statement (it dereferences nil today); not exercised",
@@ -727,6 +728,7 @@ func c10DecodeConcurrent(c *core.Ctx, k *core.Case) {
 func init() {
 	p := &core.Property{
 		ID:          "C10",
+		Interleave:  []string{"decode-pure", "encode-pure"},
 		Rule:        "decode: accepted and rejected inputs (random plans in nine presence patterns, their mutations, repository samples) through the three entry points with the input placed in a slice with guarded spare capacity: input octets, slice header and spare capacity unchanged; no []byte reachable from the message lies inside the input's backing array (address ranges via reflection); flipping every input octet leaves the message deep-equal to its snapshot and vice versa; two runs agree. encode: well-formed messages into buffers pre-filled with 0..64 octets and 0..64 octets of spare capacity: message deep-equal to its snapshot, prefix unchanged, appended bytes equal an encode into an empty buffer, no aliasing between message and output. Non-trivial = accepted input with at least one buffer-backed element, or encode with a non-empty prefill; distinct by bytes.",
 		Assumptions: []string{"address-range comparison uses reflect.Value.Pointer / unsafe on live slices in one goroutine"},
 		Oracles:     map[string]func(*core.Ctx, *core.Case){"decode-pure": c10Decode, "encode-pure": c10Encode, "decode-concurrent": c10DecodeConcurrent, "decode-reuse": c10DecodeReuse},
